@@ -69,6 +69,20 @@ def programs(seed, n):
         progs.append({"id": "c03-%d-%d" % (seed, i), "seed": seed * 1000 + i, "cfg": cfg, "probe": "none",
                       "steps": steps + pre + [cut], "sweep": len(steps) + len(pre),
                       "cut": cut["cmd"] + ("-read-all" if cut.get("read_all") else "")})
+    # directed: the command under test runs on what an interrupted prune left behind - its new index files next to the old ones,
+    # so packs are listed normally and with a delete mark at once - after a further backup started to use those packs again
+    for k in range(max(12, n // 8)):
+        files = gen.rand_files(rng, 3)
+        cfg = gen.rand_cfg(rng)
+        cfg.pop("index_flush", None)
+        cut = {"cmd": "repair_index", "read_all": k % 6 == 5} if k % 4 != 3 else \
+            {"cmd": "prune", "opts": gen.prune_opts(rng, kd, allow_instant=False, allow_early=False)}
+        steps = [{"cmd": "backup", "files": files}, {"cmd": "forget", "snaps": [0]},
+                 {"cmd": "prune", "opts": {"keep_delete": kd, "keep_pack": 0, "max_unused": "unlimited", "max_repack": "10%", "instant": False},
+                  "fail_at": 1},      # the removal of the old index file fails: old and new index files stay
+                 {"cmd": "backup", "files": files if k % 2 == 0 else gen.evolve(rng, files)}]
+        progs.append({"id": "c03-%d-int%d" % (seed, k), "seed": seed * 1000 + 800 + k, "cfg": cfg, "probe": "none",
+                      "steps": steps + [cut], "sweep": len(steps), "cut": "after-interrupted-prune:" + cut["cmd"]})
     return progs
 
 
@@ -86,6 +100,14 @@ def run(ctx):
     r = vlib.tlc("MCRepo.tla", "MCRepoDeriveSnapFirst.cfg", workers=4, timeout=900, metadir=os.path.join(ctx.out, "mc-snapfirst"))
     ctx.negative_control(r.violated == "AllReadable", "model: a derived snapshot saved before its trees are flushed must violate AllReadable")
 
+    # repair-index as a step machine over every small store / index state (duplicate, stale and marked entries, lost and damaged
+    # packs): nothing readable becomes unreadable at any step or crash point; pre-fix variants must fail
+    vlib.mc(ctx, "RepairIndex.tla", "MCRepairIndex.cfg", workers=4, timeout=600)
+    vlib.mc(ctx, "RepairIndex.tla", "MCRepairIndexReadAll.cfg", workers=4, timeout=600)
+    for cfg, what in (("MCRepairIndexFirstWins.cfg", "keeps the first entry met for a pack, marked or not (the library before fix b9e4409)"),
+                      ("MCRepairIndexRemoveFirst.cfg", "replaces the changed index files before the re-read packs are indexed again")):
+        r = vlib.tlc("RepairIndex.tla", cfg, workers=4, timeout=600, metadir=os.path.join(ctx.out, "mc-" + cfg))
+        ctx.negative_control(r.violated == "NothingLost", "model: a repair-index that %s must violate NothingLost" % what)
     n = 40 if q else 600
     progs = programs(ctx.seed, n)
     by_id = {p["id"]: p for p in progs}
